@@ -12,6 +12,7 @@ import (
 	"net/http"
 	"reflect"
 	"sort"
+	"sync"
 )
 
 // HTTPClientHook, if set, may substitute the HTTP client built at a `&http.Client{...}` literal of
@@ -141,4 +142,43 @@ func Range[M ~map[K]V, K cmp.Ordered, V any](site string, m M) iter.Seq2[K, V] {
 			}
 		}
 	}
+}
+
+// ---- sync.Pool under simulation
+//
+// A sync.Pool hands out whatever earlier executions of the same process left in it, so a run's
+// behaviour would depend on the runs a worker executed before it. In simulation every Pool of the
+// instrumented packages is a plain LIFO list that is emptied when a simulator is installed: the most
+// recently returned object is handed out again at once (the reuse pattern that exposes aliasing),
+// and one run is a function of its seed only. Only one task runs at a time, so no locking is needed.
+
+var simPools = map[*sync.Pool][]any{}
+
+// ResetPools forgets all pooled objects (called when a simulator is installed).
+func ResetPools() { simPools = map[*sync.Pool][]any{} }
+
+// PoolGet replaces p.Get().
+func PoolGet(p *sync.Pool) any {
+	if H == nil {
+		return p.Get()
+	}
+	l := simPools[p]
+	if n := len(l); n > 0 {
+		x := l[n-1]
+		simPools[p] = l[:n-1]
+		return x
+	}
+	if p.New != nil {
+		return p.New()
+	}
+	return nil
+}
+
+// PoolPut replaces p.Put(x).
+func PoolPut(p *sync.Pool, x any) {
+	if H == nil {
+		p.Put(x)
+		return
+	}
+	simPools[p] = append(simPools[p], x)
 }
